@@ -281,6 +281,7 @@ pub fn run(tier: Tier, seed: u64) -> i32 {
             }
         }
     }
+    sanitizer_summary(&ev, "C18");
     ev.floor("pool sizes", ev.set_len("pools") as u64, pools.len() as u64);
     ev.floor("fresh processes", ev.bucket_get("scenario.D2-fresh-process"), (n_children * sizes.len()) as u64);
     ev.floor("shared-key jobs", ev.bucket_get("scenario.D4-shared-keys"), 32);
@@ -289,10 +290,76 @@ pub fn run(tier: Tier, seed: u64) -> i32 {
     ev.finish()
 }
 
+/// Light parallel workload for the ThreadSanitizer build (`--sub sanitizer`):
+/// pools 1/4/16 and 8 threads on shared keys; prints a summary, writes no
+/// evidence (the instrumented run is judged by the sanitizer's report log).
+#[cfg(feature = "plonk-std")]
+pub fn sanitizer_workload(seed: u64) -> i32 {
+    use dusk_plonk::prelude::{Prover, Verifier};
+    let mut runs = 0u64;
+    for (idx, rows) in [(0u64, 300usize), (1, 700)] {
+        let (prog, inputs) = program_for(seed, idx, rows);
+        let label = format!("c18-san-{idx}");
+        let script = script_for(seed, idx, 0);
+        let base = run_once(&prog, &inputs, label.as_bytes(), &script, rows);
+        for p in [1usize, 4, 16] {
+            let pool = rayon::ThreadPoolBuilder::new().num_threads(p).build().unwrap();
+            let r = pool.install(|| run_once(&prog, &inputs, label.as_bytes(), &script, rows));
+            runs += 1;
+            if r != base {
+                println!("SANITIZER-WORKLOAD digest mismatch at pool {p}");
+                return 3;
+            }
+        }
+        let pp = crate::util::pp(common::min_degree(rows));
+        let Ok(c) = common::compile(&pp, label.as_bytes(), &prog) else { return 3 };
+        let prover: Arc<Prover> = Arc::new(c.prover);
+        let verifier: Arc<Verifier> = Arc::new(c.verifier);
+        std::thread::scope(|s| {
+            for t in 0..8u64 {
+                let (prover, verifier, prog, inputs) = (&prover, &verifier, &prog, &inputs);
+                s.spawn(move || {
+                    let hc = HC::new(prog.clone(), inputs.clone());
+                    let sc = script_for(seed, idx, 200 + t);
+                    if let Ok((proof, pi)) = prover.prove(&mut ScriptedRng::new(&sc), &hc) {
+                        let _ = verifier.verify(&proof, &pi);
+                    }
+                    let small = build_small(seed, t);
+                    let spp = crate::util::pp(32);
+                    let _ = common::compile(&spp, format!("c18-san-label-{t}").as_bytes(), &small);
+                });
+            }
+        });
+        runs += 8;
+    }
+    println!("SANITIZER-WORKLOAD C18 runs={runs}");
+    0
+}
+
 #[cfg(feature = "plonk-std")]
 fn build_small(seed: u64, j: u64) -> Arc<Program> {
     let mut rng = case_rng(seed, "C18.small", j % 4);
     let b = build::random_program(&mut rng, &GenCfg::arith_only(), 12);
     let _ = rng.next_u32();
     b.finish().0
+}
+
+/// Fold the result of the instrumented (ThreadSanitizer) run, which bin/check
+/// performs before the thorough tier, into the evidence; any report is a
+/// violation whose replay is the sanitizer log.
+pub fn sanitizer_summary(ev: &Ev, id: &str) {
+    for (name, key, prefix) in [("thread-sanitizer", "thread_sanitizer", "VH_TSAN"), ("address-sanitizer", "address_sanitizer", "VH_ASAN"), ("miri", "miri", "VH_MIRI")] {
+        if let Ok(ran) = std::env::var(format!("{prefix}_RAN")) {
+            let reports: u64 = std::env::var(format!("{prefix}_REPORTS")).ok().and_then(|s| s.parse().ok()).unwrap_or(0);
+            let log = std::env::var(format!("{prefix}_LOG")).unwrap_or_default();
+            ev.extra(key, json!({"workload": ran, "reports": reports, "log": log}));
+            if reports > 0 {
+                ev.violation(&format!("{id}:{name}-reports"), json!({"reports": reports, "log": log}));
+            } else if ran != "ok" {
+                // a secondary net that could not run is recorded, not turned
+                // into a verdict on the property
+                ev.extra(&format!("{key}_not_run"), json!(ran));
+            }
+        }
+    }
 }
